@@ -340,3 +340,73 @@ VP_HARNESS(h_enc_diff)
                     vp_assert((*a)[f][i] == (*b)[f][i], "C10: same frame bytes as a fresh encoder (counter offset aside)");
         }
 }
+
+// Large frames (max up to 65559, payloads up to 65535 bytes): sizes and tiling only. Payload contents are never read by the
+// harness byte by byte (a 64 KiB loop per assertion is out of reach); they are uninitialised heap memory, i.e.
+// nondeterministic for the solver and the allocator's fill pattern in the native replay. One symbolic index samples the
+// "every payload byte appears in order" clause.
+VP_HARNESS(h_enc_big)
+{
+    Src* s = &g_src;
+    s->version = vp_u8();
+    s->deviceId = vp_u16();
+    s->streamId = vp_u8();
+    s->start = vp_u16();
+    Packet* pk[3] = {nullptr, nullptr, nullptr};
+    const uint8_t* src[3] = {nullptr, nullptr, nullptr};
+    for (unsigned i = 0; i < K; ++i)
+    {
+        uint8_t* d = static_cast<uint8_t*>(operator new(LEN[i] ? LEN[i] : 1));
+        src[i] = d;
+        Payload pl(PayloadType(static_cast<CmpHeader::MessageType>(TYP[i]), RT), d, LEN[i]);
+        Packet* p = new Packet;
+        p->setPayload(pl);
+        p->setVersion(s->version);
+        p->setTimestamp(vp_u64());
+        pk[i] = p;
+    }
+    Encoder* e = new Encoder;
+    e->setDeviceId(s->deviceId);
+    e->setStreamId(s->streamId);
+    VerifAccess::seq(*e) = s->start;
+    Frames* fr = doEncode(*e, pk);
+    size_t total = 0, want = 0;
+    for (unsigned i = 0; i < K; ++i)
+        want += LEN[i];
+    vp_assert(fr->size() <= MAXF, "C07: frame count within the model bound");
+    const size_t ix = vp_u16();  // sampled byte of packet 0
+    bool seen = LEN[0] == 0 || ix >= LEN[0];
+    size_t at0 = 0;              // bytes of packet 0 placed so far (packet 0 comes first on the wire)
+    for (unsigned f = 0; f < MAXF; ++f)
+        if (f < fr->size())
+        {
+            const std::vector<uint8_t>& fb = (*fr)[f];
+            vp_assert(fb.size() <= MAXB, "C07: frame no longer than the maximum");
+            vp_assert(fb.size() >= MINB && fb.size() >= 8 + 16, "C07: frame no shorter than the minimum and holds at least one message");
+            vp_assert(fb[1] == 0 && vp_be16(fb.data() + 2) == s->deviceId && fb[5] == s->streamId && fb[0] == s->version, "C09: frame header carries version, device id and stream id");
+            vp_assert(vp_be16(fb.data() + 6) == static_cast<uint16_t>(s->start + 1 + f), "C09: consecutive sequence counters");
+            size_t pos = 8;
+            for (unsigned m = 0; m < 3; ++m)
+                if (pos + 16 <= fb.size() && !(MINB > 0 && m > 0 && vp_be16(fb.data() + pos + 14) == 0))
+                {
+                    const size_t len = vp_be16(fb.data() + pos + 14);
+                    vp_assert(pos + 16 + len <= fb.size(), "C07: every message lies completely inside its frame");
+                    if (pos + 16 + len > fb.size())
+                        return;
+                    if (at0 < LEN[0] && !seen && ix >= at0 && ix < at0 + len)
+                    {
+                        vp_assert(fb[pos + 16 + (ix - at0)] == src[0][ix], "C07: every payload byte appears once and in order (sampled index)");
+                        seen = true;
+                    }
+                    if (at0 < LEN[0])
+                        at0 += len;
+                    total += len;
+                    pos += 16 + len;
+                }
+            if (MINB == 0)
+                vp_assert(pos == fb.size(), "C07: messages tile the frame exactly (no padding without a minimum)");
+        }
+    vp_assert(total == want, "C07: declared payload lengths add up to the batch's payload bytes");
+    vp_assert(seen, "C07: the sampled payload byte was placed");
+    vp_assert(e->getSequenceCounter() == static_cast<uint16_t>(s->start + fr->size()), "C09: reported counter equals the last frame's");
+}
